@@ -4,6 +4,7 @@ from vlib.core import Case
 PROP = "C06"
 SPEC_MODE = "oracle"
 KEEP_PREFIX = 1
+SHRINK_BUDGET = 150
 EXTRA_MODULES = ("Sentinel.Lemmas.HotConc", "Sentinel.Lemmas.HotConcCap")
 SIZES = {"quick": 6000, "thorough": 120000}
 BATCH = 3000
@@ -141,6 +142,14 @@ def corpus():
             cur.append(l.split(" => ")[0])
         if cur:
             res.append(Case(f"{name}#{k}", cur, tags=("corpus",)))
+    # the default capacity (ConcurrencyMaxCount = 4000, ParamsMaxCapacity = 0): one long-running request for value 0 and
+    # n other values passing through; n = 3999 fills the cache exactly (value 0 still capped), n = 4000 evicts value 0's cell
+    for n in (3999, 4000):
+        ops = ["load r1;c;0;;1;0;", "entry long r1 i:0", "entry dup r1 i:0"]
+        for i in range(1, n + 1):
+            ops += [f"entry x{i} r1 i:{i}", f"exit x{i}"]
+        ops += ["entry second r1 i:0", "exit long", "exit second", "entry a r1 i:0", "entry b r1 i:0", "entry c r1 i:0"]
+        res.append(Case(f"default-capacity-{n}", ops, tags=("corpus", "capacity")))
     return res
 
 
@@ -206,7 +215,8 @@ META = {
                    "and exits in any order: while a rule's counter cache has not evicted, the cell of every value equals the number of live entries "
                    "admitted with it (cell_eq_live), admission is exactly live(v) < threshold(v) for every value that already has a cell "
                    "(admit_iff_*, check_verdict_iff under any check/commit interleaving), the cap live(v) <= threshold(v) in sequential histories with "
-                   "positive thresholds (capped_sequential), no eviction while at most ParamsMaxCapacity distinct values were seen "
+                   "positive thresholds (capped_sequential) and live(v) <= threshold(v) + P - 1 under any schedule with at most P goroutines inside "
+                   "api.Entry (capped_sched), no eviction while at most ParamsMaxCapacity distinct values were seen "
                    "(no_evict_of_few_values), cells return to zero, entries for other values / blocked entries / entries blocked by another slot leave a "
                    "value's cell untouched.  The model (LRU cells, first-touch shortcut, re-extraction at exit) is tied to core/hotspot + api.Entry "
                    "by running the same op files through the real packages and the compiled Lean driver and comparing every answer; the property "
